@@ -155,6 +155,31 @@ def frameSid : Frame → Option Nat
   | .rst id _ => some id
   | _ => none
 
+/-- HEADERS on an existing stream: response headers, request trailers or response trailers -/
+def headersUpdate (st : Stream) (isReq : Bool) (fields : Fields) : Stream × List Trace :=
+  if !isReq && !st.gotResponse then st.receiveResponse fields
+  else if isReq then
+    ({ st with builder := { st.builder with trace := { st.builder.trace with reqTrailers := some (regular fields) } } }, [])
+  else if st.builder.trace.resp.isSome then
+    ({ st with builder := { st.builder with trace := { st.builder.trace with respTrailers := some (regular fields) } } }, [])
+  else (st, [])
+
+/-- DATA on an existing stream: the payload goes through the direction's `dataTracer` -/
+def dataUpdate (st : Stream) (isReq : Bool) (payload : Bytes) : Stream × List Trace :=
+  if isReq then
+    let d := dataTrace st.reqCfg st.reqDT payload
+    { st with reqDT := d.1 }.addEvs (d.2.map reqEv)
+  else
+    let d := dataTrace st.respCfg st.respDT payload
+    { st with respDT := d.1 }.addEvs (d.2.map respEv)
+
+/-- `if frame.StreamEnded() { closeStreamLocked(…, nil) }` -/
+def finishStep (r0 : Stream × List Trace) (es isReq : Bool) : Option Stream × List COp :=
+  if es then
+    let r2 := closeLocal r0.1 isReq .none
+    (r2.1, completes r0.2 ++ r2.2)
+  else (some r0.1, completes r0.2)
+
 /-- What a HEADERS / DATA / RST_STREAM frame for stream `id` does to that stream's table
 entry `cur` (`none` = no such stream): the branches of `handleFrame` with `getStreamLocked`,
 `newStreamLocked`, `receiveResponseLocked`, `closeStreamLocked`.  Nothing but the entry of
@@ -162,44 +187,18 @@ entry `cur` (`none` = no such stream): the branches of `handleFrame` with `getSt
 def streamStep (maxId : Nat) (isReq : Bool) (id : Nat) (cur : Option Stream) : Frame → Option Stream × List COp
   | .headers _ fields es =>
     match cur with
-    | some st =>
-      -- existing stream
-      let r : Stream × List Trace :=
-        if !isReq && !st.gotResponse then st.receiveResponse fields
-        else if isReq then
-          ({ st with builder := { st.builder with trace := { st.builder.trace with reqTrailers := some (regular fields) } } }, [])
-        else if st.builder.trace.resp.isSome then
-          ({ st with builder := { st.builder with trace := { st.builder.trace with respTrailers := some (regular fields) } } }, [])
-        else (st, [])
-      if es then
-        let r2 := closeLocal r.1 isReq .none
-        (r2.1, completes r.2 ++ r2.2)
-      else (some r.1, completes r.2)
+    | some st => finishStep (headersUpdate st isReq fields) es isReq
     | none =>
       if !isReq then (none, [])
       else if maxId != 0 && id > maxId then (none, [])   -- stream ID too high; ignore
       else
         let st := newStream fields
-        let o1 : List COp := [COp.newAttempt st.builder.trace.name]
-        if es then
-          let r2 := closeLocal st isReq .none
-          (r2.1, o1 ++ r2.2)
-        else (some st, o1)
+        let r := finishStep (st, []) es isReq
+        (r.1, COp.newAttempt st.builder.trace.name :: r.2)
   | .data _ payload es =>
     match cur with
     | none => (none, [])
-    | some st =>
-      let r : Stream × List Trace :=
-        if isReq then
-          let d := dataTrace st.reqCfg st.reqDT payload
-          { st with reqDT := d.1 }.addEvs (d.2.map reqEv)
-        else
-          let d := dataTrace st.respCfg st.respDT payload
-          { st with respDT := d.1 }.addEvs (d.2.map respEv)
-      if es then
-        let r2 := closeLocal r.1 isReq .none
-        (r2.1, completes r.2 ++ r2.2)
-      else (some r.1, completes r.2)
+    | some st => finishStep (dataUpdate st isReq payload) es isReq
   | .rst _ code =>
     match cur with
     | none => (none, [])
@@ -233,6 +232,51 @@ def handleFrames (c : L2) (isReq : Bool) : List Frame → L2 × Ops
   | f :: fs =>
     let r := handleFrame c isReq f
     let r2 := handleFrames r.1 isReq fs
+    (r2.1, r.2 ++ r2.2)
+
+/-- all frames of a connection in the order the tracer handles them, each with its direction -/
+def runL2 (c : L2) : List (Bool × Frame) → L2 × Ops
+  | [] => (c, [])
+  | df :: l =>
+    let r := handleFrame c df.1 df.2
+    let r2 := runL2 r.1 l
+    (r2.1, r.2 ++ r2.2)
+
+/-- the collector operations that originate from stream `i` -/
+def opsFor (i : Nat) (ops : Ops) : List COp := (ops.filter (fun o => o.1 == i)).map (·.2)
+
+/-- what there is to know about stream `i` in the connection state -/
+structure View where
+  cur : Option Stream
+  maxId : Nat
+deriving DecidableEq, Repr, Inhabited
+
+def view (i : Nat) (c : L2) : View := { cur := tGet i c.streams, maxId := c.maxId }
+
+/-- does a frame concern stream `i` (GOAWAY concerns every stream) -/
+def concernsStream (i : Nat) : Frame → Bool
+  | .goaway _ _ => true
+  | f => frameSid f == some i
+
+/-- the tracer as seen by one stream: what a frame does to the view of stream `i` -/
+def viewStep (i : Nat) (v : View) (isReq : Bool) (f : Frame) : View × List COp :=
+  match f with
+  | .goaway last code =>
+    ({ cur := if i > last then none else v.cur, maxId := last },
+     match v.cur with
+     | some st => if i > last then completes (st.abort (.conn code)).2 else []
+     | none => [])
+  | f =>
+    if frameSid f = some i then
+      let r := streamStep v.maxId isReq i v.cur f
+      ({ cur := r.1, maxId := v.maxId }, r.2)
+    else (v, [])
+
+def runView (i : Nat) (v : View) : List (Bool × Frame) → View × List COp
+  | [] => (v, [])
+  | df :: l =>
+    let r := viewStep i v df.1 df.2
+    let r2 := runView i r.1 l
     (r2.1, r.2 ++ r2.2)
 
 /-- `cancelAll` (the stream part; `collector.cancel()` follows) -/
